@@ -1,18 +1,24 @@
 (* C11 — Output tree is always the fresh build, also after failed or killed builds.
-   Model: Model/FS.v, Model/Build.v (same as C10).  The theorems are about the REPAIRED behaviour [fixed]
-   (fixes/C11-namespace-deleted-last.patch + the C10 patches); `C11_refuted_crash_between_rmtrees_pinned` shows the
-   crash window of the unchanged tree.  Files are compared ([file_at]); empty directories the #static-aware rmtree
+   Model: Model/FS.v, Model/Build.v (same as C10).  The theorems are about the REPAIRED behaviour: every [sound]
+   variant, i.e. [fixed] (fixes/C11-namespace-deleted-last.patch + the first C10 patches) and [hardened] (in addition
+   fixes/C10-function-tags-read-first.patch and fixes/C11-atomic-cert.patch, which the certificate clause of
+   C11_crash_recover needs); `C11_refuted_crash_between_rmtrees_pinned` shows the crash window of the original tree,
+   `C11_torn_cert_refuted_fixed` the torn certificate of [fixed].  Files are compared ([file_at]); empty directories the #static-aware rmtree
    leaves behind are not.
    Vocabulary:  [inside c h p]   p lies strictly inside data/<ns>, data/<override> or data/minecraft;
                 [excepted h p]   p lies in a #static folder;
                 [clean c h t]    no namespace folder and no file inside those folders, #static content apart;
                 [built c t]      namespace folder with jmc.txt;   [startable] = built or clean;
                 [ready]          namespace folder exists, or clean;
-                [crash_trace]    a prefix of the plan, last write possibly torn (Proofs/BuildC10.v).
-   Outside the model's reach (see reports/C11.md): the compiler front end is the same function of the sources in both
-   runs only if jmc.txt is intact — a torn write INTO jmc.txt can change the internal names the re-run compiles with
-   (known finding C11-torn-cert); files an earlier build put outside these folders (a dropped #override namespace,
-   #copy destinations) are by C10 not JMC's to delete. *)
+                [crash_trace]    a prefix of the plan, last write possibly torn (Proofs/BuildC10.v); os.replace is listed
+                                 as its two halves (Model/FS.v rename_ops), so the prefixes are a superset of the real
+                                 crash states;
+                [cert_exclusive] neither #copy nor an emitted file lands on jmc.txt.
+   The compiler front end is the same function of the sources in both runs only if the jmc.txt it reads is intact: that
+   is the last clause of C11_crash_recover (true for [v_cert_atomic]; for [fixed] a torn write INTO jmc.txt changes the
+   internal names the re-run compiles with — known finding C11-torn-cert until fixes/C11-atomic-cert.patch is committed).
+   Outside the model's reach (see reports/C11.md): files an earlier build put outside these folders (a dropped #override
+   namespace, #copy destinations) are by C10 not JMC's to delete. *)
 From Coq Require Import String List Bool.
 From JMCV Require Import Model.FS Model.Build Proofs.FS Proofs.Build Proofs.BuildC10 Proofs.BuildC11.
 Import ListNotations.
@@ -20,30 +26,33 @@ Import ListNotations.
 (* After a successful compile the output is what the same project gives from ANY other startable tree with the same
    #static content: nothing of an earlier build survives inside the deleted folders, and every file the build writes
    (pack.mcmeta, #copy destinations included) is the same. *)
-Theorem C11_fresh : forall c h o s1 s2 pl1 pl2 s1' s2',
+Theorem C11_fresh : forall v c h o s1 s2 pl1 pl2 s1' s2',
+  sound v ->
   startable c h s1 -> startable c h s2 ->
   (forall p, excepted h p = true -> file_at s1 p = file_at s2 p) ->
-  run fixed c h (Success o) None s1 = (pl1, RDone) -> exec pl1 s1 = Some s1' ->
-  run fixed c h (Success o) None s2 = (pl2, RDone) -> exec pl2 s2 = Some s2' ->
+  run v c h (Success o) None s1 = (pl1, RDone) -> exec pl1 s1 = Some s1' ->
+  run v c h (Success o) None s2 = (pl2, RDone) -> exec pl2 s2 = Some s2' ->
   forall p, inside c h p = true \/ In p (map op_path (filter creates pl1)) ->
   file_at s1' p = file_at s2' p.
 Proof. exact fresh. Qed.
 Print Assumptions C11_fresh.
 
 (* ... in particular what compiling into an empty directory produces *)
-Theorem C11_fresh_empty : forall c h o s pl s' ple e',
+Theorem C11_fresh_empty : forall v c h o s pl s' ple e',
+  sound v ->
   startable c h s -> (forall p, excepted h p = true -> file_at s p = None) ->
-  run fixed c h (Success o) None s = (pl, RDone) -> exec pl s = Some s' ->
-  run fixed c h (Success o) None empty_out = (ple, RDone) -> exec ple empty_out = Some e' ->
+  run v c h (Success o) None s = (pl, RDone) -> exec pl s = Some s' ->
+  run v c h (Success o) None empty_out = (ple, RDone) -> exec ple empty_out = Some e' ->
   forall p, inside c h p = true \/ In p (map op_path (filter creates pl)) -> file_at s' p = file_at e' p.
 Proof. exact fresh_empty. Qed.
 Print Assumptions C11_fresh_empty.
 
 (* compiling twice changes nothing *)
-Theorem C11_twice : forall c h o s pl s' pl' s'',
+Theorem C11_twice : forall v c h o s pl s' pl' s'',
+  sound v ->
   startable c h s -> static_safe c h o = true ->
-  run fixed c h (Success o) None s = (pl, RDone) -> exec pl s = Some s' ->
-  run fixed c h (Success o) None s' = (pl', RDone) -> exec pl' s' = Some s'' ->
+  run v c h (Success o) None s = (pl, RDone) -> exec pl s = Some s' ->
+  run v c h (Success o) None s' = (pl', RDone) -> exec pl' s' = Some s'' ->
   forall p, inside c h p = true \/ In p (map op_path (filter creates pl')) ->
   file_at s'' p = file_at s' p.
 Proof. exact twice. Qed.
@@ -51,26 +60,61 @@ Print Assumptions C11_twice.
 
 (* Kill the build at ANY mutation (also with an injected deletion failure, also with the last write torn) and run it
    again: #static content is untouched, and the re-run either is refused without modifying anything, or gives the
-   fresh tree in the sense of C11_fresh. *)
-Theorem C11_crash_recover : forall c h o fault s ops k,
+   fresh tree in the sense of C11_fresh.  Torn certificates: when jmc.txt is written through jmc.txt.tmp + os.replace
+   ([v_cert_atomic]), the jmc.txt the re-run reads its internal names from is absent, the one the killed build read,
+   or the complete one it wrote — never a truncated text — so the re-run is indeed the same [c], [o]. *)
+Theorem C11_crash_recover : forall v c h o fault s ops k,
+  sound v ->
   c_ns c <> "minecraft"%string -> ready c h s -> static_safe c h o = true ->
-  crash_trace (plan fixed c h (Success o) fault s) ops -> exec ops s = Some k ->
+  crash_trace (plan v c h (Success o) fault s) ops -> exec ops s = Some k ->
   (forall p, excepted h p = true -> file_at k p = file_at s p) /\
-  ( run fixed c h (Success o) None k = ([], RRefused)
+  ( run v c h (Success o) None k = ([], RRefused)
     \/ forall pl k' s2 pl2 s2',
-         run fixed c h (Success o) None k = (pl, RDone) -> exec pl k = Some k' ->
+         run v c h (Success o) None k = (pl, RDone) -> exec pl k = Some k' ->
          startable c h s2 -> (forall p, excepted h p = true -> file_at s p = file_at s2 p) ->
-         run fixed c h (Success o) None s2 = (pl2, RDone) -> exec pl2 s2 = Some s2' ->
-         forall p, inside c h p = true \/ In p (map op_path (filter creates pl)) -> file_at k' p = file_at s2' p ).
-Proof. exact crash_recover. Qed.
+         run v c h (Success o) None s2 = (pl2, RDone) -> exec pl2 s2 = Some s2' ->
+         forall p, inside c h p = true \/ In p (map op_path (filter creates pl)) -> file_at k' p = file_at s2' p ) /\
+  ( v_cert_atomic v = true -> cert_exclusive c h (Success o) = true ->
+    file_at k (cert_path c) = file_at s (cert_path c) \/ file_at k (cert_path c) = None \/
+    file_at k (cert_path c) = Some (Raw (c_cert c)) ).
+Proof. exact crash_recover_cert. Qed.
 Print Assumptions C11_crash_recover.
+
+(* the certificate clause alone holds for every outcome of the front end and needs nothing but [v_cert_atomic] *)
+Theorem C11_crash_cert_whole : forall v c h out fault s ops k,
+  v_cert_atomic v = true -> cert_exclusive c h out = true ->
+  crash_trace (plan v c h out fault s) ops -> exec ops s = Some k ->
+  file_at k (cert_path c) = file_at s (cert_path c) \/ file_at k (cert_path c) = None \/
+  file_at k (cert_path c) = Some (Raw (c_cert c)).
+Proof. exact crash_cert_whole. Qed.
+Print Assumptions C11_crash_cert_whole.
+
+(* [fixed] (jmc.txt written in place; known finding C11-torn-cert while fixes/C11-atomic-cert.patch is not committed):
+   killed inside the write, jmc.txt holds a truncated text (PRIVATE=__priv) *)
+Theorem C11_torn_cert_refuted_fixed :
+  exists ops k, crash_trace (plan fixed z_cfg x_hdr (Success x_B) None x_empty) ops /\
+    exec ops x_empty = Some k /\ cert_exclusive z_cfg x_hdr (Success x_B) = true /\
+    file_at k (cert_path z_cfg) = Some (Raw "LOAD=__load__
+PRIVATE=__priv"%string).
+Proof. exact torn_cert_refuted_fixed. Qed.
+Print Assumptions C11_torn_cert_refuted_fixed.
+
+(* ... the same kill under [hardened] tears jmc.txt.tmp: jmc.txt does not exist yet and the re-run is refused *)
+Example C11_torn_tmp_hardened :
+  exists ops k, crash_trace (plan hardened z_cfg x_hdr (Success x_B) None x_empty) ops /\
+    exec ops x_empty = Some k /\
+    file_at k (cert_tmp z_cfg) = Some (Raw "LOAD=__load__
+PRIVATE=__priv"%string) /\ file_at k (cert_path z_cfg) = None /\
+    run hardened z_cfg x_hdr (Success x_B) None k = ([], RRefused).
+Proof. exact torn_tmp_hardened. Qed.
+Print Assumptions C11_torn_tmp_hardened.
 
 (* "after any sequence of earlier successful, failed or interrupted builds": from a tree without JMC-owned files,
    every history of build attempts (any outcome, any injected failure, complete or killed anywhere) of projects that
    share namespace, override namespaces and #static folders ends in a [ready] tree — the hypothesis of
    C11_crash_recover, and (when the namespace folder has its jmc.txt, or is absent) of C11_fresh. *)
-Theorem C11_history_ready : forall c h s0 s,
-  c_ns c <> "minecraft"%string -> clean c h s0 -> hist c h s0 s -> ready c h s.
+Theorem C11_history_ready : forall v c h s0 s,
+  sound v -> c_ns c <> "minecraft"%string -> clean c h s0 -> hist v c h s0 s -> ready c h s.
 Proof. exact history_ready. Qed.
 Print Assumptions C11_history_ready.
 
